@@ -641,7 +641,19 @@ class Gen:
                 forms += ["push", "lswap", "lconcat"]
             if self.in_opt_fn and self.has("opt"):
                 forms += ["try"]
+        if self.has("calls") and self.in_for == 0 and any(not fn.get("special") for fn in self.fns.values()):
+            forms += ["callfn"] * 2
         f = r.choice(forms)
+        if f == "callfn":
+            # call one of the functions generated so far, whatever it returns
+            name = r.choice([n for n, fn in self.fns.items() if not fn.get("special")])
+            fn = self.fns[name]
+            call = {"k": "call", "f": name, "args": [self.expr(t, max(d - 1, 0), True) for t in fn["pts"]]}
+            if fn["rt"] == "unit":
+                return call
+            v = self.fresh()
+            self.declare(v, fn["rt"])
+            return let(v, fn["rt"], call)
         if f == "let":
             ty = self.random_ty(1)
             n = None
@@ -988,6 +1000,21 @@ class Gen:
             ss.append(host("emit", rec_t, self.tag(), [var(n)]))
         e = self.expr(mrt, self.size, True) if mrt != "unit" else None
         self.fns["main"] = {"ps": ps, "pts": [], "rt": mrt, "b": block(ss, e)}
+        if self.has("mods"):
+            # some helper functions live in sub-modules; a function of one module may have the identifier of a
+            # function of another module (calls are written with the path that designates the intended one)
+            movable = [n for n, f in self.fns.items() if n.startswith("h")]
+            idents = {}
+            for n in movable:
+                if r.random() < 0.5:
+                    self.fns[n]["mod"] = r.choice(["ma", "mb"])
+            for n in movable:
+                mod = self.fns[n].get("mod", "")
+                others = [self.fns[m].get("ident", m) for m in movable if m != n and self.fns[m].get("mod", "") != mod]
+                taken = {self.fns[m].get("ident", m) for m in self.fns if m != n and self.fns[m].get("mod", "") == mod}
+                cands = [x for x in others if x not in taken]
+                if cands and r.random() < 0.5:
+                    self.fns[n]["ident"] = r.choice(cands)
         prog = {"types": [self.types[n] for n in self.typelist], "fns": self.fns, "consts": self.kconsts}
         return prog, mrt, list(self.ins)
 
